@@ -1,6 +1,6 @@
 import NfcVerif.Props.ExcFlow
 /-!
-# Exception flow, instance theorems: C13 / C18: target discovery of the drivers, `open` / `close`, `connect(llcp=...)`
+# Exception flow, instance theorems: C13 / C18: target discovery of the drivers, `open` / `close`, NFC-DEP activation
 
 Re-checked on the regenerated `Gen/ExcFlow.lean` (see `Props/ExcFlow.lean` for what `Only` / `Can` mean).
 Continues `Props/ExcFlowDrivers.lean` (a module of its own so that the two evaluations run in parallel).
@@ -8,7 +8,7 @@ Continues `Props/ExcFlowDrivers.lean` (a module of its own so that the two evalu
 namespace NfcVerif.ExcFlowProps
 open NfcVerif.ExcFlow NfcVerif.Gen.ClassTree NfcVerif.Gen.ExcFlow
 
-/-! ## C13 / C18: target discovery, `open` / `close`, and `connect(llcp=...)` without the inner layer boundaries
+/-! ## C13 / C18: target discovery, `open` / `close`, NFC-DEP activation on the real frontend
 
 Translated in addition to the exchange paths of `Props/ExcFlowDrivers.lean`: `sense_tta/ttb/ttf/dep` and `listen_tta/ttb/ttf/dep`
 (with `_listen_*`, `_init_as_target`, `_send_atr_response`, `_send_psl_response` and the nested helpers of the RC-S380
@@ -96,8 +96,10 @@ def frontendOnly : List (Site × List Cls) := [
   (Site.fn_pn53x_Device_mute, [Cls.OSError, Cls.AssertionError, Cls.clf_pn53x_Chipset_Error]),
   (Site.fn_rcs380_Device_mute, [Cls.OSError, Cls.clf_rcs380_StatusError]),
   (Site.fn_udp_Device_mute, [Cls.OSError, Cls.clf_TransmissionError]),
-  (Site.fn_clf_connect_stack, [Cls.OSError, Cls.TypeError, Cls.ValueError, Cls.SystemExit, Cls.RuntimeError, Cls.AssertionError,
-    Cls.clf_pn53x_Chipset_Error, Cls.clf_rcs380_StatusError, Cls.clf_CommunicationError])]
+  (Site.fn_dep_Target_activate_stack, [Cls.clf_UnsupportedTargetError, Cls.ValueError, Cls.OSError, Cls.AssertionError,
+    Cls.clf_pn53x_Chipset_Error, Cls.clf_rcs380_StatusError, Cls.clf_TransmissionError]),
+  (Site.fn_dep_Initiator_activate_stack, [Cls.clf_UnsupportedTargetError, Cls.ValueError, Cls.OSError, Cls.AssertionError,
+    Cls.clf_pn53x_Chipset_Error, Cls.clf_rcs380_StatusError, Cls.clf_TransmissionError])]
 
 abbrev discoveryOnly : List (Site × List Cls) :=
   pn53xSenseOnlyFns.map (fun f => (f, pn53xSenseOnlyAllowed)) ++ (pn53xListenOnlyFns.map (fun f => (f, pn53xListenOnlyAllowed)) ++
@@ -113,8 +115,11 @@ def discoveryNever : List (Site × List Cls) := [
   (Site.fn_rcs380_Device_sense_tta, [Cls.clf_rcs380_CommunicationError]),
   (Site.fn_clf_sense, [Cls.clf_TimeoutError, Cls.clf_BrokenLinkError, Cls.clf_ProtocolError, Cls.clf_rcs380_CommunicationError]),
   (Site.fn_clf_close, [Cls.OSError]),
-  (Site.fn_clf_connect_stack, [Cls.clf_UnsupportedTargetError, Cls.KeyboardInterrupt, Cls.llcp_pdu_Error, Cls.tag_TagCommandError,
-    Cls.clf_rcs380_CommunicationError])]
+  (Site.fn_udp_Device_listen_dep, [Cls.clf_TimeoutError, Cls.clf_BrokenLinkError, Cls.clf_ProtocolError]),
+  (Site.fn_udp_Device_listen_ttb, [Cls.clf_CommunicationError]),
+  (Site.fn_clf_listen, [Cls.clf_TimeoutError, Cls.clf_BrokenLinkError, Cls.clf_ProtocolError]),
+  (Site.fn_dep_Target_activate_stack, [Cls.clf_TimeoutError, Cls.clf_BrokenLinkError, Cls.clf_ProtocolError]),
+  (Site.fn_dep_Initiator_activate_stack, [Cls.clf_TimeoutError, Cls.clf_BrokenLinkError, Cls.clf_ProtocolError])]
 
 def discoveryCan : List (Site × Cls) := [
   (Site.fn_pn53x_Device_sense_tta, Cls.clf_pn53x_Chipset_Error),
@@ -123,8 +128,7 @@ def discoveryCan : List (Site × Cls) := [
   (Site.fn_pn53x_Device_listen_tta, Cls.clf_pn53x_Chipset_Error),
   (Site.fn_rcs380_Device_sense_tta, Cls.clf_rcs380_StatusError),
   (Site.fn_rcs380_Device_listen_dep, Cls.clf_rcs380_StatusError),
-  (Site.fn_udp_Device_listen_dep, Cls.clf_TimeoutError),
-  (Site.fn_udp_Device_listen_dep, Cls.clf_BrokenLinkError),
+  (Site.fn_udp_Device_listen_dep, Cls.clf_TransmissionError),
   (Site.fn_udp_Device_sense_tta, Cls.clf_BrokenLinkError),
   (Site.fn_pn53x_Device_mute, Cls.clf_pn53x_Chipset_Error),
   (Site.fn_rcs380_Device_mute, Cls.clf_rcs380_StatusError),
@@ -135,18 +139,16 @@ def discoveryCan : List (Site × Cls) := [
   (Site.fn_clf_sense, Cls.AssertionError),
   (Site.fn_clf_listen, Cls.clf_pn53x_Chipset_Error),
   (Site.fn_clf_listen, Cls.clf_rcs380_StatusError),
-  (Site.fn_clf_listen, Cls.clf_TimeoutError),
-  (Site.fn_clf_listen, Cls.clf_BrokenLinkError),
+  (Site.fn_clf_listen, Cls.clf_TransmissionError),
   (Site.fn_clf_close, Cls.clf_pn53x_Chipset_Error),
   (Site.fn_clf_close, Cls.clf_rcs380_StatusError),
   (Site.fn_clf_close, Cls.clf_TransmissionError),
-  (Site.fn_dep_Target_activate_stack, Cls.clf_TimeoutError),
-  (Site.fn_llc_activate_stack, Cls.clf_TimeoutError),
-  (Site.fn_clf_connect_stack, Cls.clf_TimeoutError),
-  (Site.fn_clf_connect_stack, Cls.clf_BrokenLinkError),
-  (Site.fn_clf_connect_stack, Cls.clf_TransmissionError),
-  (Site.fn_clf_connect_stack, Cls.clf_pn53x_Chipset_Error),
-  (Site.fn_clf_connect_stack, Cls.clf_rcs380_StatusError)]
+  (Site.fn_dep_Target_activate_stack, Cls.clf_pn53x_Chipset_Error),
+  (Site.fn_dep_Target_activate_stack, Cls.clf_rcs380_StatusError),
+  (Site.fn_dep_Initiator_activate_stack, Cls.clf_pn53x_Chipset_Error),
+  (Site.fn_clf_connect, Cls.clf_TransmissionError),
+  (Site.fn_clf_connect, Cls.clf_pn53x_Chipset_Error),
+  (Site.fn_clf_connect, Cls.clf_rcs380_StatusError)]
 
 /-- every statement of this section, checked with one evaluation of the summary table -/
 theorem discoveryAll_ok : checkAll world table prog discoveryOnly discoveryNever discoveryCan = true := by decide +kernel
@@ -183,8 +185,7 @@ theorem rcs380_discovery_no_internal_commerror : ∀ f ∈ [Site.fn_rcs380_Devic
   rcases hf with h | h | h | h <;> subst h <;> exact neverEscapes_of_checkNever tree_ordered discoveryNever_ok (by decide)
 /-- **UDP**: `UnsupportedTargetError`, `IOError` of the socket, `AssertionError` (argument checks of `listen_*`), and
 `CommunicationError` subclasses: `sense_tta` lets the `TransmissionError` / `BrokenLinkError` of `_send_data` /
-`_recv_data` pass, `listen_dep` / `listen_ttb` the `TimeoutError` / `BrokenLinkError` / `TransmissionError` of the
-exchanges that follow the ATR_RES (they are outside the handler that covers the first receive) -/
+`_recv_data` pass, `listen_*` the `TransmissionError` of the short-send check of `_send_data` -/
 theorem udp_sense_escapes : ∀ f ∈ udpSenseOnlyFns, Only f udpSenseOnlyAllowed :=
   fun f h => only_all discoveryOnly_ok (f, _) (List.mem_append_right _ (List.mem_append_right _ (List.mem_append_right _
     (List.mem_append_right _ (List.mem_append_left _ (mem_mapped h))))))
@@ -234,42 +235,44 @@ theorem clf_sense_absorbs_commerror : NeverEscapes world table prog Site.fn_clf_
     NeverEscapes world table prog Site.fn_clf_close [Cls.OSError] :=
   ⟨neverEscapes_of_checkNever tree_ordered discoveryNever_ok (by decide),
    neverEscapes_of_checkNever tree_ordered discoveryNever_ok (by decide)⟩
-theorem udp_discovery_raises_commerror : Can Site.fn_udp_Device_listen_dep Cls.clf_TimeoutError ∧
-    Can Site.fn_udp_Device_listen_dep Cls.clf_BrokenLinkError ∧ Can Site.fn_udp_Device_sense_tta Cls.clf_BrokenLinkError ∧
-    Can Site.fn_clf_listen Cls.clf_TimeoutError ∧ Can Site.fn_clf_listen Cls.clf_BrokenLinkError :=
+theorem udp_discovery_raises_commerror : Can Site.fn_udp_Device_listen_dep Cls.clf_TransmissionError ∧
+    Can Site.fn_udp_Device_sense_tta Cls.clf_BrokenLinkError ∧ Can Site.fn_clf_listen Cls.clf_TransmissionError :=
   ⟨canEscape_of_checkCan tree_ordered discoveryCan_ok (by decide), canEscape_of_checkCan tree_ordered discoveryCan_ok (by decide),
-   canEscape_of_checkCan tree_ordered discoveryCan_ok (by decide), canEscape_of_checkCan tree_ordered discoveryCan_ok (by decide),
    canEscape_of_checkCan tree_ordered discoveryCan_ok (by decide)⟩
-
-/-! ### `connect(llcp=...)` from the frontend down to the drivers
-
-`clf.connect.stack` is `ContactlessFrontend.connect` in which `_llcp_connect`, `LogicalLinkController.activate`,
-`nfc.dep.Initiator/Target.activate` are the copies that *call* `sense()` / `listen()` (and through them the drivers)
-instead of assuming `mac.activate: [IOError]` (the assumption of `clf_connect_escapes`). -/
-
-/-- what can leave `connect()` on this path: the classes of `clf_connect_escapes` and `CommunicationError` subclasses;
-still no `UnsupportedTargetError`, `KeyboardInterrupt`, `pdu.Error`, `TagCommandError` -/
-theorem clf_connect_stack_escapes : Only Site.fn_clf_connect_stack
-      [Cls.OSError, Cls.TypeError, Cls.ValueError, Cls.SystemExit, Cls.RuntimeError, Cls.AssertionError,
-       Cls.clf_pn53x_Chipset_Error, Cls.clf_rcs380_StatusError, Cls.clf_CommunicationError] ∧
-    NeverEscapes world table prog Site.fn_clf_connect_stack [Cls.clf_UnsupportedTargetError, Cls.KeyboardInterrupt,
-      Cls.llcp_pdu_Error, Cls.tag_TagCommandError, Cls.clf_rcs380_CommunicationError] :=
-  ⟨only_all discoveryOnly_ok (_, _) (List.mem_append_right _ (List.mem_append_right _ (List.mem_append_right _
-    (List.mem_append_right _ (List.mem_append_right _ (List.mem_append_right _ (by decide))))))),
+/-- a driver that waits for activation returns `None` when the peer stops answering: no `TimeoutError`,
+`BrokenLinkError`, `ProtocolError` leaves `udp.Device.listen_dep` (no `CommunicationError` at all `listen_ttb`) -
+repaired by fixes/C18/0005 - nor `ContactlessFrontend.listen()` for any driver -/
+theorem listen_returns_none_when_peer_silent :
+    NeverEscapes world table prog Site.fn_udp_Device_listen_dep [Cls.clf_TimeoutError, Cls.clf_BrokenLinkError, Cls.clf_ProtocolError] ∧
+    NeverEscapes world table prog Site.fn_udp_Device_listen_ttb [Cls.clf_CommunicationError] ∧
+    NeverEscapes world table prog Site.fn_clf_listen [Cls.clf_TimeoutError, Cls.clf_BrokenLinkError, Cls.clf_ProtocolError] :=
+  ⟨neverEscapes_of_checkNever tree_ordered discoveryNever_ok (by decide),
+   neverEscapes_of_checkNever tree_ordered discoveryNever_ok (by decide),
    neverEscapes_of_checkNever tree_ordered discoveryNever_ok (by decide)⟩
-/-- **Defect of the current tree** (reproduced on the real code with the UDP driver: an initiator that sends ATR_REQ
-and then nothing): `listen()` is called by `nfc.dep.Target.activate` outside every handler, `udp.Device.listen_dep`
-lets the `TimeoutError` / `BrokenLinkError` / `TransmissionError` of the exchanges after the ATR_RES pass, and
-`connect()` catches `IOError`, `UnsupportedTargetError`, `KeyboardInterrupt` only: `connect(llcp=...)` is left by a
-`CommunicationError` (the llcp twin of the repaired `connect-raises-communication-error-from-listen`); likewise
-by `Chipset.Error` / `StatusError` of a PN53x / RC-S380 `listen_dep` / `sense_*`. -/
-theorem clf_connect_llcp_commerror : Can Site.fn_clf_connect_stack Cls.clf_TimeoutError ∧
-    Can Site.fn_clf_connect_stack Cls.clf_BrokenLinkError ∧ Can Site.fn_clf_connect_stack Cls.clf_TransmissionError ∧
-    Can Site.fn_dep_Target_activate_stack Cls.clf_TimeoutError ∧ Can Site.fn_llc_activate_stack Cls.clf_TimeoutError ∧
-    Can Site.fn_clf_connect_stack Cls.clf_pn53x_Chipset_Error ∧ Can Site.fn_clf_connect_stack Cls.clf_rcs380_StatusError :=
+
+/-! ### NFC-DEP activation on the real frontend (`connect(llcp=...)`)
+
+`dep.Initiator.activate.stack` / `dep.Target.activate.stack` are `nfc.dep.Initiator.activate` / `Target.activate` in
+which `self.clf.sense` / `self.clf.listen` are *calls* of `ContactlessFrontend.sense()` / `listen()` (for a
+peer-to-peer target) - and through them of the drivers - instead of assumption sites.  `LogicalLinkController.activate`
+calls them, so `clf_connect_escapes` / `clf_connect_no_commerror` (`Props/ExcFlowClf.lean`) need no assumption
+about `mac.activate`. -/
+
+/-- what leaves NFC-DEP activation: the lists are in `frontendOnly`; no `TimeoutError`, `BrokenLinkError`,
+`ProtocolError` (`ATR_REQ.decode` is given an ATR_REQ whose length `listen()` has checked) -/
+theorem dep_activate_stack_escapes :
+    NeverEscapes world table prog Site.fn_dep_Target_activate_stack [Cls.clf_TimeoutError, Cls.clf_BrokenLinkError, Cls.clf_ProtocolError] ∧
+    NeverEscapes world table prog Site.fn_dep_Initiator_activate_stack [Cls.clf_TimeoutError, Cls.clf_BrokenLinkError, Cls.clf_ProtocolError] :=
+  ⟨neverEscapes_of_checkNever tree_ordered discoveryNever_ok (by decide),
+   neverEscapes_of_checkNever tree_ordered discoveryNever_ok (by decide)⟩
+/-- **Not guaranteed by the current code**: the driver-internal classes and the `TransmissionError` of the UDP driver's
+short-send check do leave activation and with it `connect()` (they are in the list of `clf_connect_escapes`) -/
+theorem clf_connect_internal_classes : Can Site.fn_dep_Target_activate_stack Cls.clf_pn53x_Chipset_Error ∧
+    Can Site.fn_dep_Target_activate_stack Cls.clf_rcs380_StatusError ∧ Can Site.fn_dep_Initiator_activate_stack Cls.clf_pn53x_Chipset_Error ∧
+    Can Site.fn_clf_connect Cls.clf_TransmissionError ∧ Can Site.fn_clf_connect Cls.clf_pn53x_Chipset_Error ∧
+    Can Site.fn_clf_connect Cls.clf_rcs380_StatusError :=
   ⟨canEscape_of_checkCan tree_ordered discoveryCan_ok (by decide), canEscape_of_checkCan tree_ordered discoveryCan_ok (by decide),
    canEscape_of_checkCan tree_ordered discoveryCan_ok (by decide), canEscape_of_checkCan tree_ordered discoveryCan_ok (by decide),
-   canEscape_of_checkCan tree_ordered discoveryCan_ok (by decide), canEscape_of_checkCan tree_ordered discoveryCan_ok (by decide),
-   canEscape_of_checkCan tree_ordered discoveryCan_ok (by decide)⟩
+   canEscape_of_checkCan tree_ordered discoveryCan_ok (by decide), canEscape_of_checkCan tree_ordered discoveryCan_ok (by decide)⟩
 
 end NfcVerif.ExcFlowProps
